@@ -464,6 +464,36 @@ func (x *c13) newOrder() *mOrder {
 	return o
 }
 
+// noiseEvent: a chain event that concerns the order's neighbourhood but not our bid - other groups,
+// other order sequences, other tenants, and what competing providers do on the very same order.
+func (x *c13) noiseEvent(o *mOrder) interface{} {
+	r, m := x.r, x.m
+	switch r.Choose(6, "noise.kind") {
+	case 0: // lease for another group of the same deployment
+		id := o.ID
+		id.GSeq = 7
+		return mtypes.NewEventLeaseCreated(mtypes.MakeLeaseID(mtypes.MakeBidID(id, m.other)), sdk.NewInt64Coin("uakt", 1))
+	case 1: // closed order with another oseq
+		id := o.ID
+		id.OSeq = 9
+		return mtypes.NewEventOrderClosed(id)
+	case 2: // lease of another tenant's deployment with the same dseq
+		id := o.ID
+		id.Owner = m.other.String()
+		return mtypes.NewEventLeaseCreated(mtypes.MakeLeaseID(mtypes.MakeBidID(id, m.provAddr)), sdk.NewInt64Coin("uakt", 1))
+	case 3: // a competitor bids on the same order
+		r.Count("probe:competitor-bid-event")
+		return mtypes.NewEventBidCreated(mtypes.MakeBidID(o.ID, m.other), sdk.NewInt64Coin("uakt", 1))
+	case 4: // a competitor withdraws its bid on the same order
+		r.Count("probe:competitor-bid-event")
+		return mtypes.NewEventBidClosed(mtypes.MakeBidID(o.ID, m.other), sdk.NewInt64Coin("uakt", 1))
+	default: // a competitor's lease on another order sequence of the same group is closed
+		id := o.ID
+		id.OSeq = 9
+		return mtypes.NewEventLeaseClosed(mtypes.MakeLeaseID(mtypes.MakeBidID(id, m.other)), sdk.NewInt64Coin("uakt", 1))
+	}
+}
+
 // step applies exactly one stimulus chosen from everything that is enabled.
 func (x *c13) step() (bool, *core.Violation) {
 	r, m := x.r, x.m
@@ -578,21 +608,7 @@ func (x *c13) step() (bool, *core.Violation) {
 	if len(m.okeys) > 0 {
 		st = append(st, stim{"noise", 2, func() (bool, *core.Violation) {
 			o := m.orders[m.okeys[r.Choose(len(m.okeys), "noise.order")]]
-			var ev interface{}
-			switch r.Choose(3, "noise.kind") {
-			case 0: // lease for another group of the same deployment
-				id := o.ID
-				id.GSeq = 7
-				ev = mtypes.NewEventLeaseCreated(mtypes.MakeLeaseID(mtypes.MakeBidID(id, m.other)), sdk.NewInt64Coin("uakt", 1))
-			case 1: // closed order with another oseq
-				id := o.ID
-				id.OSeq = 9
-				ev = mtypes.NewEventOrderClosed(id)
-			default: // lease of another tenant's deployment with the same dseq
-				id := o.ID
-				id.Owner = m.other.String()
-				ev = mtypes.NewEventLeaseCreated(mtypes.MakeLeaseID(mtypes.MakeBidID(id, m.provAddr)), sdk.NewInt64Coin("uakt", 1))
-			}
+			ev := x.noiseEvent(o)
 			m.outbox = append(m.outbox, ev)
 			r.Logf("step %d: chain: noise %s", x.s.Step, evName(ev))
 			r.Abstract("chain|noise")
